@@ -213,6 +213,12 @@ def check_case(ctx, case):
     if not ok:
         return rec_raise("call", got, tb_)
     got = np.asarray(got)
+    ctx.count("result_form_checked")
+    if got.dtype.kind not in "iu" or got.shape != (len(vals),):
+        ctx.violation("form", f"hilbert_distance:result-dtype-or-shape:{'n0' if not len(vals) else 'n+'}",
+                      {"kind": kind, "n": len(vals)}, expected=["integer", len(vals)],
+                      observed=[str(got.dtype), list(got.shape)], case=case)
+        return
     # the caller's object is untouched
     ctx.count("mutation_checked")
     if tb_snapshot(arg) != snap:
@@ -277,6 +283,8 @@ def check_case(ctx, case):
         k = int(rng.integers(0, n))
         checks.append(("slice", hd(arr[k:]), base[k:]))
         checks.append(("take", hd(arr.take(perm)), base[perm]))
+        # results of the pieces of a partitioned array, put together again (an empty piece included)
+        checks.append(("pieces-concatenated", np.concatenate([hd(arr[:0]), hd(arr[:k]), hd(arr[k:k]), hd(arr[k:])]), base))
         cat = gg.array_class(kind)._concat_same_type(
             [gg.make_array(kind, strangers, subtype), arr, gg.make_array(kind, strangers[:1], subtype)])
         checks.append(("concat-strangers", hd(cat)[3:3 + n], base))
@@ -292,6 +300,10 @@ def check_case(ctx, case):
         return
     for name, a, b_ in checks:
         ctx.count("independence_checked")
+        if np.asarray(a).dtype.kind not in "iu":
+            ctx.violation("form", f"hilbert_distance:result-dtype:{name}", {"kind": kind, "p": p}, expected="integer",
+                          observed=str(np.asarray(a).dtype), case=case)
+            continue
         if not np.array_equal(np.asarray(a), np.asarray(b_)):
             ctx.violation("independence", f"hilbert_distance:depends-on-{name}",
                           {"kind": kind, "subtype": subtype, "elements": vals, "tb": eff_tb, "p": p},
